@@ -697,13 +697,24 @@ fn build_new_fwd(items: &[ModelItem], bufsize: usize, id: u16) -> (Vec<u8>, Vec<
 }
 
 fn build_new(items: &[ModelItem], bufsize: usize, id: u16) -> (Vec<u8>, Vec<bool>) {
+    build_new_after(&[], items, bufsize, id)
+}
+
+/// Like `build_new`, but the builder first takes the items of `discarded` and is then cut back with `truncate()` (the way a
+/// response that turned out too large is started over): what follows must come out as from a fresh builder, TC bit aside.
+fn build_new_after(discarded: &[ModelItem], items: &[ModelItem], bufsize: usize, id: u16) -> (Vec<u8>, Vec<bool>) {
     let mut buffer = vec![0u8; bufsize.max(12)];
     let mut comp = NameCompressor::default();
     let mut accepted = Vec::new();
     let len;
     {
         let mut b = NewBuilder::new(&mut buffer, &mut comp, U16::new(id), *HeaderFlags::default().set_qr(true));
-        for it in items {
+        let total = discarded.len();
+        for (k, it) in discarded.iter().chain(items.iter()).enumerate() {
+            if k == total && total > 0 {
+                b.truncate();
+                accepted.clear();
+            }
             let owner = RevNameBuf::parse_bytes(&it.owner).expect("harness: valid owner");
             let ok = if it.section == 0 {
                 b.push_question(&NewQuestion { qname: owner, qtype: QType { code: U16::new(it.rtype) }, qclass: QClass { code: U16::new(it.class) } }).is_ok()
@@ -724,6 +735,10 @@ fn build_new(items: &[ModelItem], bufsize: usize, id: u16) -> (Vec<u8>, Vec<bool
                 }
             };
             accepted.push(ok);
+        }
+        if total > 0 && items.is_empty() {
+            b.truncate();
+            accepted.clear();
         }
         len = b.finish().as_bytes().len();
     }
@@ -948,6 +963,37 @@ fn build_one(c: &mut Ctx, fam: &str, idx: u64, rng: &mut Rng) {
     if nacc.iter().any(|a| !a) {
         c.count("new_failed_pushes", nacc.iter().filter(|a| !**a).count() as u64);
     }
+    // started over: everything pushed once, the builder cut back with truncate(), and a tail of the items (or all of
+    // them) pushed again must give what a fresh builder gives for those items, with TC set
+    if idx % 3 == 0 && !items.is_empty() {
+        let from = if rng.bool() { 0 } else { rng.below(items.len()) };
+        let again: Vec<ModelItem> = items[from..].iter().filter(|i| i.section != 0 || from == 0).cloned().collect();
+        let r = ctx::catch(|| {
+            step("new::MessageBuilder::truncate");
+            let (tb, tacc) = build_new_after(&items, &again, bufsize, id);
+            let (fb, facc) = build_new(&again, bufsize, id);
+            (tb, tacc, fb, facc)
+        });
+        match r {
+            Err(pi) => {
+                let rp = c.replay_of(fam, idx, ex());
+                c.violation(&format!("panic:{}", pi.site()), &format!("panic while building after truncate(): {} at {}:{}", pi.msg, pi.file, pi.line), rp);
+                return;
+            }
+            Ok((tb, tacc, mut fb, facc)) => {
+                if fb.len() >= 12 {
+                    fb[2] |= 0x02;
+                }
+                if tb != fb || tacc != facc {
+                    let p = tb.iter().zip(fb.iter()).position(|(a, b)| a != b).unwrap_or(tb.len().min(fb.len()));
+                    let rp = c.replay_of(fam, idx, ex());
+                    c.violation("new-built:after-truncate-differs-from-fresh", &format!("{} items pushed, truncate(), then {} items pushed again: {} octets, a fresh builder given the same {} items makes {} octets (TC aside); first difference at {}", items.len(), again.len(), tb.len(), again.len(), fb.len(), p), rp);
+                    return;
+                }
+                c.count("new_builder_started_over_after_truncate", 1);
+            }
+        }
+    }
     if c.replaying() && std::env::var_os("DVERIF_DEBUG").is_some() {
         eprintln!("new-built ({} octets): {}", nb.len(), hex(&nb[..nb.len().min(1200)]));
         eprintln!("new accepted: {:?}", nacc);
@@ -1158,6 +1204,7 @@ pub fn run(c: &mut Ctx) {
         rdata_direct(c);
         c.floor("rdata_direct_held_unchanged", 10);
         c.floor("rdata_direct_oversize_refused", 10);
+        c.floor("new_builder_started_over_after_truncate", 50);
     }
     let fam = "diff";
     let total = c.total(400_000, 8_000_000);
